@@ -44,7 +44,7 @@ def units_consistent(words, units, skip_blank):
 
 def expect_evaluate(text, gold, units):
     ok = consistent(text, gold)
-    if units:
+    if units is not None:      # an empty units text is a units text (fix f716c25: `if units:` took it for none at all)
         ok = ok and units_consistent(text, units, True) and units_consistent(gold, units, True)
     return ok
 
